@@ -1,6 +1,6 @@
 """C11 - parse_schema accepts valid schemas, names per the specification, rejects ill-formed ones."""
 from vf import ch, family
-from . import l2, l11
+from . import l2, l11, n11
 
 
 def run(run, tier):
@@ -11,8 +11,18 @@ def run(run, tier):
         ok, detail = l11.ob_family(name)
         n += 1
         if not ok:
-            run.internal_errors.append(f"family schema {name}: {detail}")
+            text = ("import sys, os\nsys.path[:0] = [os.environ.get('VF_ROOT', '/verif'), os.environ.get('VF_REPO', '/repo')]\n"
+                    f"from props.l11 import ob_family\nok, d = ob_family({name!r})\n"
+                    "print('REPRODUCED' if not ok else 'not reproduced', d)\nsys.exit(0 if ok else 1)\n")
+            v = run.violation(f"family.{name}", f"family:{name}", detail, text)
+            run.obligation(f"family.{name}", v, detail, paths=1)
+            if v == "inconclusive":
+                run.internal_errors.append(f"family schema {name}: {detail}")
     run.validated += n
+    # character-level naming rules (E1, bounded symbolic strings over the real schema_name/_parse_schema)
+    from vf.e1 import E1Runner
+    E1Runner(run).check_many(n11.specs(tier), workers=7)
+    run.bounds.append(n11.BOUNDS % (n11.CAP_NAME[0], n11.CAP_NS[0], *n11.CAP_DEF))
     hs = l11.harnesses(tier, run.seed)
     ch.run_harnesses(run, "C11", hs, timeout=200 if tier == "quick" else 600)
     l2.describe(run, tier)
@@ -21,5 +31,5 @@ def run(run, tier):
                    "explored two levels at a time, 432 combinations per harness) with references spelled {full, simple, undefined} (symbolic)",
                    f"ill-forming mutations: {sum(len(l11.mutants(b)) for b in l11.BASES)} labelled single mutations (symbolic index) of 3 base "
                    f"schemas; defaults: {len(l11.BASES['defaults']['fields'])} field types x {len(l11.DEFAULT_VALUES)} JSON default kinds"]
-    run.outside += ["names beyond the pools (every string: see the E1 string obligations if present)", "decimal precision 0 and boolean "
+    run.outside += ["names longer than the stated character bounds or with non-ASCII characters; whether a name is a well-formed identifier (not among the listed rejection rules)", "decimal precision 0 and boolean "
                     "precision/scale (not in the property's list: not asserted)", "string defaults for float/double (NaN spellings)"]
